@@ -611,6 +611,31 @@ pub fn main(args: &[String]) {
                 rep.distinct += 1;
             }
         }
+        Some("longruns") => {
+            // glyphs whose points share one flag byte over long runs (the flag is stored once with a repeat count): runs of
+            // 63 .. 300 points with two-byte and with one-byte deltas - the subset must draw them as the original does
+            use read_fonts::tables::glyf::CurvePoint;
+            use write_fonts::tables::glyf::{Bbox, Contour, Glyph, SimpleGlyph};
+            let mut rng = Rng::new(0x10a6);
+            let mut glyphs = vec![Glyph::Empty];
+            for (n, step) in [(64usize, 300i16), (70, 300), (256, 300), (300, 300), (64, 7), (129, 7), (256, 7), (300, 7), (63, 300)] {
+                // a zigzag: every delta is (+-step, -+step), so every point has the same flags
+                let pts: Vec<CurvePoint> = (0..n).map(|i| CurvePoint::new(if i % 2 == 0 { 0 } else { step }, if i % 2 == 0 { 0 } else { -step }, true)).collect();
+                glyphs.push(Glyph::Simple(SimpleGlyph { bbox: Bbox { x_min: 0, y_min: -step, x_max: step, y_max: 0 }, contours: vec![Contour::from(pts)], instructions: vec![] }));
+            }
+            let n_all = glyphs.len() as u32;
+            let cmap = write_fonts::tables::cmap::Cmap::from_mappings((1..n_all).map(|g| (char::from_u32(0x40 + g).unwrap(), GlyphId::new(g)))).expect("cmap");
+            let opts = crate::synth::SynthOpts { metrics: vec![(600, 0)], extra: vec![(Tag::new(b"cmap"), write_fonts::dump_table(&cmap).unwrap())], ..Default::default() };
+            let font = crate::synth::truetype_font(&glyphs, &opts).expect("long run font");
+            for retain in [false, true] {
+                rep.evaluations += 1;
+                let r = Request { gids: (1..n_all).collect(), cps: vec![], retain, notdef: true, no_hinting: false, overlaps: false };
+                if let Some(o) = run_subset("synthetic-long-flag-runs.ttf", &font, &r, &mut rng, None, &mut rep) {
+                    ev.push(o.event.clone());
+                    rep.distinct += 1;
+                }
+            }
+        }
         Some("bigcmap") => {
             // a font whose characters are runs of consecutive code points (plus one character beyond the BMP so that a
             // format 12 subtable exists): requesting every other character needs more format 4 segments than
